@@ -15,10 +15,46 @@ from typing import Any, Callable, Dict, Iterable, List, Optional, Sequence, Tupl
 
 # ------------------------------------------------------------------------------------------ DSL
 
+ALL_FORMS = ("literal", "top", "tuple", "twice", "augmented", "extend", "append", "concat", "conditional")
+ALL_FORMS_SPLIT = ("augmented", "extend", "append", "concat", "twice")      # written in two parts: the first name, then the rest
+
+
 def mod(name: str, par: int = 0, pkg: bool = False, ops: Sequence[Dict[str, Any]] = (), all: Optional[Sequence[str]] = None,
-        broken: bool = False) -> Dict[str, Any]:
+        broken: bool = False, allform: str = "literal") -> Dict[str, Any]:
+    """`all`: the value __all__ has once the module is imported (None: no __all__); `allform`: how the source writes it
+    (ALL_FORMS); `allsplit`: how many of the names stand in the FIRST statement for the forms written in two parts."""
+    assert allform in ALL_FORMS
+    n = len(all or [])
     return {"name": name, "par": par, "pkg": pkg, "hasAll": all is not None, "all": list(all or []),
+            "allform": allform, "allsplit": min(1, n) if allform in ALL_FORMS_SPLIT else n,
             "ops": list(ops), "broken": broken}
+
+
+def render_all(m: Dict[str, Any]) -> Tuple[List[str], List[str]]:
+    """(lines for the top of the module, lines for its end) writing __all__ in the module's form."""
+    if not m["hasAll"]:
+        return [], []
+    names, k, form = list(m["all"]), m.get("allsplit", len(m["all"])), m.get("allform", "literal")
+    first, rest = names[:k], names[k:]
+    if form == "literal":
+        return [], [f"__all__ = {names!r}"]
+    if form == "top":
+        return [f"__all__ = {names!r}"], []
+    if form == "tuple":
+        return [], [f"__all__ = {tuple(names)!r}"]
+    if form == "twice":
+        return [f"__all__ = {first!r}"], [f"__all__ = {names!r}"]
+    if form == "augmented":
+        return [], [f"__all__ = {first!r}", f"__all__ += {rest!r}"]
+    if form == "extend":
+        return [], [f"__all__ = {first!r}", f"__all__.extend({rest!r})"]
+    if form == "append":
+        return [], [f"__all__ = {first!r}"] + [f"__all__.append({x!r})" for x in rest]
+    if form == "concat":
+        return [], [f"__all__ = {first!r} + {rest!r}"]
+    if form == "conditional":
+        return [], ["if True:", f"    __all__ = {names!r}"]
+    raise ValueError(form)
 
 
 def frm(m: str, orig: str, as_: Optional[str] = None, lvl: int = 0) -> Dict[str, Any]:
@@ -138,9 +174,8 @@ def render_module(p: Dict[str, Any], i: int) -> str:
             lines.append(f"{sp}{op['n']} = {'.'.join(op['v'])}")
         else:
             raise ValueError(k)
-    if m["hasAll"]:
-        lines.append(f"__all__ = {m['all']!r}")
-    return "\n".join(lines) + "\n"
+    top, end = render_all(m)
+    return "\n".join(lines[:1] + top + lines[1:] + end) + "\n"
 
 
 def mod_path(p: Dict[str, Any], i: int) -> List[str]:
